@@ -102,7 +102,10 @@ func patPacket(r *rand.Rand, payload []byte, withAF bool) packet.Packet {
 	if withAF {
 		afl := 0
 		if room := 184 - len(payload); room > 1 {
-			afl = r.Intn(room - 1)
+			afl = r.Intn(room)
+			if r.Intn(3) == 0 {
+				afl = room - 1 // exact fit: the CRC_32 ends on the last byte of the packet, no stuffing behind it
+			}
 		}
 		if afl > 0 {
 			p[3] |= 0x20
